@@ -41,6 +41,8 @@ package keeper
 //@ ghost pit.rank (Array Bytes Int)
 //@ ghost pit.pw (Array Iface (Array Int Int))
 //@ ghost nls.at (Array Bytes Int)
+//@ ghost uq.slot (Array Iface (Array Int Int))
+//@ ghost uq.posin (Array Iface (Array Bytes Int))
 //@ ghost pos.proposerset Bool
 
 // records are stored under their own address, and a validator's consensus key hashes to it
@@ -144,6 +146,16 @@ package keeper
 //@   ensures fresh(r)
 //@   ensures forall j int :: 0 <= j && j < len(r) ==> bytes_len(r[j]) == 20 && has(prevState, akey(r[j])) && nls.at[r[j]] == j
 //@   ensures forall a Bytes :: bytes_len(a) == 20 && has(prevState, akey(a)) ==> 0 <= nls.at[a] && nls.at[a] < len(r) && r[nls.at[a]] == a
+// the unstaking queue (prefix 0x41) up to endTime, as a snapshot: one slot per completion time t <= endTime (key order
+// = time order: FormatTimeBytes is sortable), each slot's value the amino list of the addresses queued at t, no
+// address twice. uq.slot[it][t] names the slot of time t, uq.posin[it][a] the position of a in its slot's list.
+//@ assumed func (k Keeper) unstakingValidatorsIterator(ctx sdk.Ctx, endTime time.Time) (r sdk.Iterator)
+//@   mode value
+//@   modifies pit.pos, pit.len, pit.key, pit.val, uq.slot, uq.posin
+//@   ensures ifacenotnil(r) && pit.pos[r] == 0 && pit.len[r] >= 0
+//@   ensures [slots] forall i int :: 0 <= i && i < pit.len[r] ==> key_kind(pit.key[r][i]) == 65 && key_time(pit.key[r][i]) <= endTime && uq.slot[r][key_time(pit.key[r][i])] == i
+//@   ensures [members] forall i int, j int :: 0 <= i && i < pit.len[r] && 0 <= j && j < dec_addrs_len(pit.val[r][i]) ==> pos.queue[key_time(pit.key[r][i])][dec_addrs_at(pit.val[r][i], j)] && uq.posin[r][dec_addrs_at(pit.val[r][i], j)] == j
+//@   ensures [complete] forall t int, a Bytes :: t <= endTime && pos.queue[t][a] ==> 0 <= uq.slot[r][t] && uq.slot[r][t] < pit.len[r] && key_time(pit.key[r][uq.slot[r][t]]) == t && 0 <= uq.posin[r][a] && uq.posin[r][a] < dec_addrs_len(pit.val[r][uq.slot[r][t]]) && dec_addrs_at(pit.val[r][uq.slot[r][t]], uq.posin[r][a]) == a
 //@ assumed func (k Keeper) GetPreviousProposer(ctx sdk.Ctx) (address sdk.Address)
 //@   mode value
 //@   panics when !pos.proposerset
@@ -303,6 +315,7 @@ package keeper
 //@   props C06
 //@   panics_declared
 //@   ensures err == nil ==> validator.Status == 1 && val(validator.StakedTokens) >= pp_minstake
+//@   ensures [accepts] validator.Status == 1 && val(validator.StakedTokens) >= pp_minstake ==> err == nil
 //@
 // C04/C06: finishing pays the whole recorded stake back to the validator's account and marks it Unstaked with 0 tokens
 //@ func (k Keeper) FinishUnstakingValidator(ctx sdk.Ctx, validator types.Validator) (err sdk.Error)
@@ -604,6 +617,43 @@ package keeper
 //@   ensures [complete] forall a Bytes :: (TOPN(a) && CHANGED(a)) || (old(pos.prevhas[a]) && !TOPN(a)) ==> (exists j int :: 0 <= j && j < len(updates) && OWN(updates[j]) == a)
 //@
 
+// ---------------------------------------------------------------- valUnstaked.go
+//@ macro UIT() := unstakingValidatorsIterator
+//@ macro MATURE(a) := old(pos.has)[a] && old(pos.vals)[a].Status == 1 && old(pos.vals)[a].UnstakingCompletionTime <= ctx_time(ctx)
+//@ macro SLOTDONE(a) := MATURE(a) && uq.slot[UIT()][old(pos.vals)[a].UnstakingCompletionTime] < pit.pos[UIT()]
+//@ macro INDONE(a) := MATURE(a) && uq.slot[UIT()][old(pos.vals)[a].UnstakingCompletionTime] == pit.pos[UIT()] && uq.posin[UIT()][a] <= #rangeindex
+//@ macro PAID(a) := !pos.has[a] && amt(auth.bal[a], pp_denom) == amt(old(auth.bal)[a], pp_denom) + val(old(pos.vals)[a].StakedTokens)
+//@ macro SAME(a) := pos.has[a] == old(pos.has)[a] && pos.vals[a] == old(pos.vals)[a] && (a != modaddr("staked_tokens_pool") ==> auth.bal[a] == old(auth.bal)[a])
+// C06/C04: at EndBlock every unstaking validator whose completion time has come (<= block time) is removed and gets its
+// whole recorded stake back from the pool - and nobody else is touched (never earlier); the pool keeps backing the stake.
+//@ func (k Keeper) unstakeAllMatureValidators(ctx sdk.Ctx)
+//@   props C06 C04
+//@   uses bankinv valinv idxinv queueinv mininv
+//@   requires forall a Bytes :: pos.has[a] && pos.vals[a].Status == 1 ==> a != modaddr("staked_tokens_pool") && val(pos.vals[a].StakedTokens) <= 9223372036854775807
+//@   modifies acct.id, acct.next, acct.coins, acct.addr, auth.bal, auth.has, pos.vals, pos.has, pos.stakesum, pos.queue
+//@   modifies pit.pos, pit.len, pit.key, pit.val, uq.slot, uq.posin
+//@   loop 1 frame
+//@   loop 1 decreases pit.len[UIT()] - pit.pos[UIT()]
+//@   loop 1 maintains bankinv valinv idxinv queueinv mininv
+//@   loop 1 invariant 0 <= pit.pos[UIT()] && pit.pos[UIT()] <= pit.len[UIT()]
+//@   loop 1 invariant pos.sinfo == old(pos.sinfo) && pos.sinfohas == old(pos.sinfohas) && pos.missed == old(pos.missed) && pos.awards == old(pos.awards) && pos.awardq == old(pos.awardq) && pos.awardsum == old(pos.awardsum) && pos.burns == old(pos.burns) && pos.burnq == old(pos.burnq) && pos.proposer == old(pos.proposer) && pos.proposerset == old(pos.proposerset) && pos.prev == old(pos.prev) && pos.prevhas == old(pos.prevhas) && pos.prevtotal == old(pos.prevtotal)
+//@   loop 1 invariant forall a Bytes :: SLOTDONE(a) ==> PAID(a)
+//@   loop 1 invariant forall a Bytes :: !SLOTDONE(a) ==> SAME(a)
+//@   loop 1 invariant amt(auth.bal[modaddr("staked_tokens_pool")], pp_denom) - pos.stakesum == old(amt(auth.bal[modaddr("staked_tokens_pool")], pp_denom) - pos.stakesum)
+//@   loop 1 invariant forall t int, a Bytes :: pos.queue[t][a] == (old(pos.queue)[t][a] && !(t <= ctx_time(ctx) && uq.slot[UIT()][t] < pit.pos[UIT()]))
+//@   loop 2 frame
+//@   loop 2 maintains bankinv valinv idxinv mininv
+//@   loop 2 invariant 0 - 1 <= #rangeindex && #rangeindex < len(unstakingVals) && pit.pos[UIT()] < pit.len[UIT()]
+//@   loop 2 invariant pos.sinfo == old(pos.sinfo) && pos.sinfohas == old(pos.sinfohas) && pos.missed == old(pos.missed) && pos.awards == old(pos.awards) && pos.awardq == old(pos.awardq) && pos.awardsum == old(pos.awardsum) && pos.burns == old(pos.burns) && pos.burnq == old(pos.burnq) && pos.proposer == old(pos.proposer) && pos.proposerset == old(pos.proposerset) && pos.prev == old(pos.prev) && pos.prevhas == old(pos.prevhas) && pos.prevtotal == old(pos.prevtotal)
+//@   loop 2 invariant forall a Bytes :: SLOTDONE(a) || INDONE(a) ==> PAID(a)
+//@   loop 2 invariant forall a Bytes :: !(SLOTDONE(a) || INDONE(a)) ==> SAME(a)
+//@   loop 2 invariant amt(auth.bal[modaddr("staked_tokens_pool")], pp_denom) - pos.stakesum == old(amt(auth.bal[modaddr("staked_tokens_pool")], pp_denom) - pos.stakesum)
+//@   loop 2 invariant forall t int, a Bytes :: pos.queue[t][a] == (old(pos.queue)[t][a] && !(t <= ctx_time(ctx) && uq.slot[UIT()][t] < pit.pos[UIT()]) && !INDONE(a))
+//@   ensures [paid] forall a Bytes :: MATURE(a) ==> PAID(a)
+//@   ensures [never-earlier] forall a Bytes :: !MATURE(a) ==> SAME(a)
+//@   ensures [backed] amt(auth.bal[modaddr("staked_tokens_pool")], pp_denom) - pos.stakesum == old(amt(auth.bal[modaddr("staked_tokens_pool")], pp_denom) - pos.stakesum)
+//@
+
 // ---------------------------------------------------------------- abci.go
 // One BeginBlock: fees of the previous block to its proposer, queued awards minted once, queued burns applied once,
 // the new proposer recorded, every vote accounted, every double-sign evidence handled.
@@ -653,6 +703,26 @@ package keeper
 //@   ensures [proposer] pos.proposerset && pos.proposer == req.Header.ProposerAddress
 //@   ensures [backed] amt(auth.bal[modaddr("staked_tokens_pool")], pp_denom) - pos.stakesum == old(amt(auth.bal[modaddr("staked_tokens_pool")], pp_denom) - pos.stakesum)
 //@   ensures [supply] amt(auth.supply, pp_denom) - amt(auth.bal[modaddr("staked_tokens_pool")], pp_denom) == old(amt(auth.supply, pp_denom) - amt(auth.bal[modaddr("staked_tokens_pool")], pp_denom)) + old(pos.awardsum)
+//@
+
+// One EndBlock: the validator updates for Tendermint are computed first (C05, see UpdateTendermintValidators), then every
+// mature unstaking validator is paid out and removed (C06); the updates returned are the ones computed before the removals,
+// and every previous-state entry still has its record afterwards (the precondition of the next EndBlock).
+//@ func EndBlocker(ctx sdk.Ctx, k Keeper) (updates []abci.ValidatorUpdate)
+//@   props C05 C06 C04
+//@   uses bankinv valinv idxinv queueinv mininv
+//@   requires 0 <= pp_max_validators && pp_max_validators <= 9223372036854775807
+//@   requires forall a Bytes :: pos.prevhas[a] ==> pos.has[a]
+//@   requires forall a Bytes :: pos.has[a] && pos.vals[a].Status == 1 ==> a != modaddr("staked_tokens_pool") && val(pos.vals[a].StakedTokens) <= 9223372036854775807
+//@   modifies acct.id, acct.next, acct.coins, acct.addr, auth.bal, auth.has, pos.vals, pos.has, pos.stakesum, pos.queue, pos.prev, pos.prevhas, pos.prevtotal
+//@   modifies pit.pos, pit.len, pit.key, pit.val, pit.at, pit.sum, pit.pw, pit.rank, uq.slot, uq.posin, nls.at
+//@   ensures [paid] forall a Bytes :: MATURE(a) ==> PAID(a)
+//@   ensures [never-earlier] forall a Bytes :: !MATURE(a) ==> SAME(a)
+//@   ensures [backed] amt(auth.bal[modaddr("staked_tokens_pool")], pp_denom) - pos.stakesum == old(amt(auth.bal[modaddr("staked_tokens_pool")], pp_denom) - pos.stakesum)
+//@   ensures [prev-is-topN] forall a Bytes :: pos.prevhas[a] == (old(pos.has)[a] && old(pos.vals)[a].Status == 2 && !old(pos.vals)[a].Jailed && pit.rank[a] < pp_max_validators) && (pos.prevhas[a] ==> pos.prev[a] == val(old(pos.vals)[a].StakedTokens) / 1000000)
+//@   ensures [prev-has-record] forall a Bytes :: pos.prevhas[a] ==> pos.has[a]
+//@   ensures [applicable] forall j int :: 0 <= j && j < len(updates) ==> updates[j].Power >= 0 && (updates[j].Power == 0 ==> old(pos.prevhas)[OWN(updates[j])])
+//@   ensures [nodup] forall i int, j int :: 0 <= i && i < j && j < len(updates) ==> OWN(updates[i]) != OWN(updates[j])
 //@
 
 // ---------------------------------------------------------------- account.go
